@@ -52,4 +52,135 @@ Section P.
       + pose proof (div_floor_spec piv (pmax index) ltac:(lia)). nia.
       + nia.
   Qed.
+
+  (* mechanism 1: the tokens bought on open and the price picked on close round against the trader, so the
+     total pnl of a freshly opened position at the SAME prices is at most the impact value it received *)
+  Theorem open_pnl_le_impact p m pr ci sd acc p1 m' rep :
+    size_usd p = 0 -> price_ordered (p_index pr) -> 0 <= sd ->
+    increase w unit p m pr ci sd acc = Ok (p1, m', rep) ->
+    size_usd p1 = sd /\ size_tok p1 = ir_sdt rep /\ exact_total p1 pr <= ir_impact_value rep.
+  Proof.
+    intros Hempty Hord Hsd H. unfold increase in H.
+    destruct (negb (prices_valid w pr)); [discriminate|].
+    rewrite Hempty in H. cbn [Z.eqb] in H.
+    set (p0 := MkPos (is_long p) (coll_long p) (coll p) 0 0 (bfac p) (amount (fa_pool m (is_long p)) (coll_long p))
+                     (pl (cfa_pool m (is_long p))) (ps (cfa_pool m (is_long p)))) in *.
+    bind_ok H as ex Eex. destruct ex as [[[[piv pia] sdt] ep] change].
+    bind_ok H as cda0 E1. bind_ok H as fs E2. bind_ok H as tc E3. bind_ok H as tcs E4. bind_ok H as cda E5.
+    bind_ok H as fr E6. bind_ok H as frs E7. bind_ok H as m1 E8. bind_ok H as fpl E9. bind_ok H as fps E10.
+    bind_ok H as m2 E11. bind_ok H as cs E12. bind_ok H as coll' E13. bind_ok H as npia E14. bind_ok H as m4 E15.
+    bind_ok H as next_size E16. bind_ok H as m5 E17. bind_ok H as next_tok E18.
+    bind_ok H as sds E19. bind_ok H as sdts E20. bind_ok H as m6 E21.
+    bind_ok H as u1 E22. bind_ok H as u2 E23. injection H as <- <- <-.
+    cbn [size_usd size_tok is_long ir_sdt ir_impact_value].
+    apply uadd_ok in E16, E18. destruct E16 as [_ ->]. destruct E18 as [_ ->]. cbn [size_usd size_tok p0] in *.
+    destruct u2. apply validate_position_sizes in E23. cbn [size_usd size_tok] in E23.
+    destruct (sd =? 0) eqn:Esd0; [apply Z.eqb_eq in Esd0; lia|].
+    bind_ok Eex as sds' F1. bind_ok Eex as imp F2. bind_ok Eex as pia' F3. bind_ok Eex as base F4.
+    bind_ok Eex as sdt' F5. bind_ok Eex as ep' F6. injection Eex as <- <- <- _ _.
+    pose proof (increase_tokens _ _ _ _ _ _ _ Hord Hsd F3 F4 F5) as HT.
+    split; [lia|]. split; [lia|].
+    unfold exact_total, tokens_ok in *. cbn [is_long size_usd size_tok p0] in *.
+    destruct (is_long p); replace (0 + sd) with sd by lia; replace (0 + sdt') with sdt' by lia; exact HT.
+  Qed.
+
+  (* the parts of a successful decrease the round-trip argument uses *)
+  Lemma decrease_parts p m pr sd0 acc cw fl p1 m' rep :
+    decrease w unit p m pr sd0 acc cw fl = Ok (p1, m', rep) ->
+    pnl_value w unit p m pr (dr_size_delta rep) = Ok (dr_pnl rep, dr_uncapped_pnl rep, dr_sdt rep) /\
+    ((dr_size_delta rep = 0 /\ dr_impact_value rep = 0 /\ dr_impact_diff rep = 0) \/
+     (dr_size_delta rep <> 0 /\ exists change,
+        capped_impact w unit p m (p_index pr) (- dr_size_delta rep) = Ok (dr_impact_value rep, change, dr_impact_diff rep))).
+  Proof.
+    unfold decrease. intros H.
+    destruct (negb (prices_valid w pr)); [discriminate|].
+    destruct ((size_usd p =? 0) && (size_tok p =? 0) && (coll p =? 0)); [discriminate|].
+    bind_ok H as sd1 Esd1. bind_ok H as pc Epc. destruct pc as [sd wd1].
+    bind_ok H as u1 Eliq. bind_ok H as ex Eex. destruct ex as [[[piv change] diff] ep].
+    bind_ok H as pn Epn. destruct pn as [[base_pnl uncapped_pnl] sdt].
+    bind_ok H as fs Efs. bind_ok H as pr_ Eproc. destruct pr_ as [st step].
+    bind_ok H as wd3 Ewd3. bind_ok H as x Ex. destruct x as [rem_coll out1].
+    bind_ok H as next_size Ens. bind_ok H as m2 Em2. bind_ok H as next_tok Ent.
+    bind_ok H as y Ey. destruct y as [[[ns nt] nc] out2].
+    bind_ok H as cdelta Ecd. bind_ok H as ncd Encd. bind_ok H as cs Ecs.
+    bind_ok H as nsd Ensd. bind_ok H as nsdt Ensdt. bind_ok H as m4 Em4.
+    bind_ok H as u2 Eval. bind_ok H as zz Ez. destruct zz as [out3 sec3].
+    injection H as <- <- <-. cbn [dr_size_delta dr_pnl dr_uncapped_pnl dr_sdt dr_impact_value dr_impact_diff].
+    split; [exact Epn|].
+    destruct (sd =? 0) eqn:E0.
+    - left. apply Z.eqb_eq in E0. injection Eex as <- _ <- _. split; [exact E0|split; reflexivity].
+    - right. apply Z.eqb_neq in E0. split; [exact E0|].
+      bind_ok Eex as nsd' G1. apply ropp_val in G1; [|exact Hw]. subst nsd'.
+      bind_ok Eex as imp G2. destruct imp as [[piv' change'] diff'].
+      bind_ok Eex as ep' G3. injection Eex as X1 X2 X3 _. subst. eexists. exact G2.
+  Qed.
+
+  (* mechanism 2: caps of the position impact of a decrease *)
+  Lemma capped_impact_bounds p m index sd v change diff :
+    0 <= pp_max_pos_impact (c_pos (m_cfg m)) -> 0 <= pp_max_neg_impact (c_pos (m_cfg m)) ->
+    0 <= pl (m_impact m) -> 0 <= pmin index ->
+    capped_impact w unit p m index sd = Ok (v, change, diff) ->
+    - (Z.abs sd * pp_max_neg_impact (c_pos (m_cfg m)) / unit) <= v /\
+    v <= Z.max 0 (Z.min (pl (m_impact m) * pmin index) (Z.abs sd * pp_max_pos_impact (c_pos (m_cfg m)) / unit)) /\
+    0 <= diff /\
+    (exists raw, position_price_impact w unit p m sd = Ok (raw, change) /\ (diff <> 0 -> v - diff = raw /\ raw < v <= 0)).
+  Proof.
+    intros Hpos Hneg Hpool Hpm H. unfold capped_impact in H.
+    bind_ok H as imp E1. unfold capped_positive_impact in E1. bind_ok E1 as raw E2. destruct raw as [raw ch].
+    bind_ok E1 as v1 E3. injection E1 as <-. cbn [fst snd] in *.
+    bind_ok H as c E4. destruct c as [v2 d2]. injection H as <- <- <-. cbn [fst snd].
+    (* positive cap *)
+    assert (P : v1 <= Z.max 0 (Z.min (pl (m_impact m) * pmin index) (Z.abs sd * pp_max_pos_impact (c_pos (m_cfg m)) / unit))
+                /\ (raw < 0 -> v1 = raw) /\ (0 <= raw -> 0 <= v1)).
+    { unfold cap_positive_impact in E3. destruct (raw <? 0) eqn:Er.
+      - injection E3 as <-. apply Z.ltb_lt in Er. split; [lia|]. split; [reflexivity|lia].
+      - apply Z.ltb_ge in Er. bind_ok E3 as mx F1. apply umul_ok in F1. destruct F1 as [R1 ->].
+        bind_ok E3 as mx' F2. apply rsigned_ok in F2. destruct F2 as [_ ->].
+        bind_ok E3 as mf F3. apply af_ok in F3; [|lia..]. destruct F3 as [-> R3].
+        bind_ok E3 as mf' F4. apply rsigned_ok in F4. destruct F4 as [_ ->]. injection E3 as <-.
+        set (A := pl (m_impact m) * pmin index) in *.
+        set (B := Z.abs sd * pp_max_pos_impact (c_pos (m_cfg m)) / unit) in *.
+        assert (0 <= A) by lia. assert (0 <= B) by lia.
+        destruct (A <? raw) eqn:Ea; [apply Z.ltb_lt in Ea|apply Z.ltb_ge in Ea];
+          (destruct (B <? _) eqn:Eb; [apply Z.ltb_lt in Eb|apply Z.ltb_ge in Eb]); repeat split; lia. }
+    destruct P as (P1 & P2 & P3).
+    unfold cap_negative_impact in E4. destruct (v1 <? 0) eqn:Ev.
+    - apply Z.ltb_lt in Ev. bind_ok E4 as lim G1. apply af_ok in G1; [|lia..]. destruct G1 as [-> R1].
+      bind_ok E4 as mn G2. apply ropp_val in G2; [|exact Hw]. subst mn.
+      destruct (v1 <? - (Z.abs sd * pp_max_neg_impact (c_pos (m_cfg m)) / unit)) eqn:Ec.
+      + apply Z.ltb_lt in Ec. bind_ok E4 as d G3. apply ssub_ok in G3. destruct G3 as [_ ->]. injection E4 as <- <-.
+        split; [lia|]. split; [lia|]. split; [lia|].
+        exists raw. split; [exact E2|]. intros _.
+        assert (raw < 0) by (destruct (Z_lt_le_dec raw 0); [assumption|specialize (P3 ltac:(lia)); lia]).
+        rewrite (P2 H) in *. lia.
+      + apply Z.ltb_ge in Ec. injection E4 as <- <-. split; [lia|]. split; [lia|]. split; [lia|].
+        exists raw. split; [exact E2|]. intros Hd. lia.
+    - apply Z.ltb_ge in Ev. injection E4 as <- <-.
+      assert (0 <= Z.abs sd * pp_max_neg_impact (c_pos (m_cfg m)) / unit) by (apply div_nonneg; [|lia]; pose proof (Z.abs_nonneg sd); nia).
+      split; [lia|]. split; [exact P1|]. split; [lia|]. exists raw. split; [exact E2|]. intros Hd. lia.
+  Qed.
+
+  (* open on an empty position, then close it entirely at the same prices: the pnl credited by the close is
+     at most the (capped) impact value received when opening *)
+  Theorem roundtrip_pnl_le_open_impact p m pr ci sd acc p1 m1 ir sd' acc' cw fl p2 m2 dr :
+    size_usd p = 0 -> price_ordered (p_index pr) -> 0 <= sd -> prices_nonneg pr -> pnl_market_nonneg m1 ->
+    increase w unit p m pr ci sd acc = Ok (p1, m1, ir) ->
+    decrease w unit p1 m1 pr sd' acc' cw fl = Ok (p2, m2, dr) -> dr_remove dr = true ->
+    dr_size_delta dr = sd /\ dr_sdt dr = ir_sdt ir /\
+    dr_pnl dr <= dr_uncapped_pnl dr /\ dr_uncapped_pnl dr = exact_total p1 pr /\ exact_total p1 pr <= ir_impact_value ir.
+  Proof.
+    intros Hempty Hord Hsd Hpr Hm Hinc Hdec Hrm.
+    pose proof (open_pnl_le_impact _ _ _ _ _ _ _ _ _ Hempty Hord Hsd Hinc) as (S1 & T1 & Htot).
+    pose proof (increase_effect w Hw unit _ _ _ _ _ _ _ _ _ Hinc) as (_ & _ & _ & _ & _ & P1 & P2 & P3 & _).
+    pose proof (decrease_effect w Hw unit _ _ _ _ _ _ _ _ _ _ P1 P2 P3 Hdec) as (_ & _ & U & T & _ & R1 & _).
+    destruct (R1 Hrm) as (Z1 & Z2 & _).
+    assert (HD : dr_size_delta dr = size_usd p1) by lia. assert (HT : dr_sdt dr = size_tok p1) by lia.
+    destruct (decrease_parts _ _ _ _ _ _ _ _ _ _ Hdec) as [Hpnl _].
+    assert (Hpos : pos_nonneg p1) by (split; lia).
+    assert (Hd0 : 0 <= dr_size_delta dr) by lia.
+    pose proof (pnl_le_uncapped w Hw unit Hunit _ _ _ _ _ _ _ Hpos Hpr Hm Hd0 Hpnl) as (L1 & _).
+    destruct (pnl_value_spec w Hw unit Hunit _ _ _ _ _ _ _ Hpos Hpr Hm Hd0 Hpnl) as (tc & _ & _ & _ & _ & _ & Hb & _).
+    rewrite HT in Hb. rewrite Z.mul_comm, Z.quot_mul in Hb by lia.
+    repeat split; lia.
+  Qed.
 End P.
